@@ -242,21 +242,27 @@ pub struct ScriptedIo {
     budget: u64,
     /// where the written bytes go (None: only counted)
     sink: Option<*mut Vec<u8>>,
+    /// the remote neither sends more nor closes once `incoming` is used up (default: end of stream)
+    idle_at_end: bool,
+    /// the n-th call of poll_write fails with BrokenPipe
+    fail_write_at: Option<usize>,
+    write_calls: usize,
 }
 unsafe impl Send for ScriptedIo {}
 impl VerifIo for ScriptedIo {}
 
 impl ScriptedIo {
-    fn new(nd: &mut Nondet, incoming: Vec<u8>) -> Self { ScriptedIo { nd: nd as *mut Nondet, incoming, pos: 0, written: 0, budget: param("io_budget", 3), sink: None } }
+    fn new(nd: &mut Nondet, incoming: Vec<u8>) -> Self { ScriptedIo { nd: nd as *mut Nondet, incoming, pos: 0, written: 0, budget: param("io_budget", 3), sink: None, idle_at_end: false, fail_write_at: None, write_calls: 0 } }
     fn with_sink(mut self, sink: *mut Vec<u8>) -> Self { self.sink = Some(sink); self }
     fn scripted(&mut self) -> bool { if self.budget > 0 { self.budget -= 1; true } else { false } }
 }
 
 impl AsyncRead for ScriptedIo {
-    fn poll_read(mut self: Pin<&mut Self>, _cx: &mut Context<'_>, buf: &mut ReadBuf<'_>) -> Poll<std::io::Result<()>> {
+    fn poll_read(mut self: Pin<&mut Self>, cx: &mut Context<'_>, buf: &mut ReadBuf<'_>) -> Poll<std::io::Result<()>> {
         let nd = unsafe { &mut *self.nd };
+        if self.idle_at_end && self.incoming.len() == self.pos { { cx.waker().wake_by_ref(); return Poll::Pending; } }
         let scripted = self.scripted();
-        if scripted && nd.bool("read_pending") { return Poll::Pending; }
+        if scripted && nd.bool("read_pending") { { cx.waker().wake_by_ref(); return Poll::Pending; } }
         let room = buf.remaining();
         let left = self.incoming.len() - self.pos;
         let avail = if left < room { left } else { room };
@@ -270,19 +276,21 @@ impl AsyncRead for ScriptedIo {
     }
 }
 impl AsyncWrite for ScriptedIo {
-    fn poll_write(mut self: Pin<&mut Self>, _cx: &mut Context<'_>, buf: &[u8]) -> Poll<std::io::Result<usize>> {
+    fn poll_write(mut self: Pin<&mut Self>, cx: &mut Context<'_>, buf: &[u8]) -> Poll<std::io::Result<usize>> {
         let nd = unsafe { &mut *self.nd };
         if buf.is_empty() { return Poll::Ready(Ok(0)); }
+        self.write_calls += 1;
+        if self.fail_write_at == Some(self.write_calls) { return Poll::Ready(Err(std::io::ErrorKind::BrokenPipe.into())); }
         let scripted = self.scripted();
-        if scripted && nd.bool("write_pending") { return Poll::Pending; }
+        if scripted && nd.bool("write_pending") { { cx.waker().wake_by_ref(); return Poll::Pending; } }
         let n = if !scripted { buf.len() } else { match nd.choose("write_chunk", 3) { 0 => 1, 1 => if buf.len() / 2 > 0 { buf.len() / 2 } else { 1 }, _ => buf.len() } };
         self.written += n;
         if let Some(sink) = self.sink { unsafe { (*sink).extend_from_slice(&buf[..n]); } }
         Poll::Ready(Ok(n))
     }
-    fn poll_flush(mut self: Pin<&mut Self>, _cx: &mut Context<'_>) -> Poll<std::io::Result<()>> {
+    fn poll_flush(mut self: Pin<&mut Self>, cx: &mut Context<'_>) -> Poll<std::io::Result<()>> {
         let nd = unsafe { &mut *self.nd };
-        if self.scripted() && nd.bool("flush_pending") { Poll::Pending } else { Poll::Ready(Ok(())) }
+        if self.scripted() && nd.bool("flush_pending") { cx.waker().wake_by_ref(); Poll::Pending } else { Poll::Ready(Ok(())) }
     }
     fn poll_shutdown(self: Pin<&mut Self>, _cx: &mut Context<'_>) -> Poll<std::io::Result<()>> { Poll::Ready(Ok(())) }
 }
@@ -1659,6 +1667,12 @@ pub fn c05_address_shapes(nd: &mut Nondet) {
                 check("c05.refused-address-makes-no-attempt", !calls.iter().any(|c| matches!(c, TransportCall::Dial(_))));
                 check("c05.refused-address-leaves-peers-dialable", hooks::can_dial_now(&manager, &this) && hooks::can_dial_now(&manager, &other));
                 check("c05.refused-address-tracks-nothing", hooks::pending_len(&manager) == 0);
+            }
+        }
+        // whatever dial_address remembered for later dials must be dialable by the installed transport and name its peer
+        for p in [this, other, local].iter() {
+            for a in hooks::peer_addresses(&manager, p, 64).iter() {
+                check("c10.address-remembered-by-dial_address-is-dialable-and-attributed", hooks::tcp_can_dial(a) == Some(Some(*p)));
             }
         }
     } else {
@@ -3205,12 +3219,12 @@ impl WireIo {
     fn scripted(&mut self) -> bool { let b = unsafe { &mut *self.budget }; if *b > 0 { *b -= 1; true } else { false } }
 }
 impl AsyncRead for WireIo {
-    fn poll_read(mut self: Pin<&mut Self>, _cx: &mut Context<'_>, buf: &mut ReadBuf<'_>) -> Poll<std::io::Result<()>> {
+    fn poll_read(mut self: Pin<&mut Self>, cx: &mut Context<'_>, buf: &mut ReadBuf<'_>) -> Poll<std::io::Result<()>> {
         let nd = unsafe { &mut *self.nd };
         let left = self.incoming.len() - self.pos;
         if left == 0 { return if self.eof_after { Poll::Ready(Ok(())) } else { Poll::Pending }; }
         let scripted = self.scripted();
-        if scripted && nd.bool("read_pending") { return Poll::Pending; }
+        if scripted && nd.bool("read_pending") { { cx.waker().wake_by_ref(); return Poll::Pending; } }
         let room = buf.remaining();
         let avail = if left < room { left } else { room };
         if avail == 0 { return Poll::Ready(Ok(())); }
@@ -3222,18 +3236,18 @@ impl AsyncRead for WireIo {
     }
 }
 impl AsyncWrite for WireIo {
-    fn poll_write(mut self: Pin<&mut Self>, _cx: &mut Context<'_>, buf: &[u8]) -> Poll<std::io::Result<usize>> {
+    fn poll_write(mut self: Pin<&mut Self>, cx: &mut Context<'_>, buf: &[u8]) -> Poll<std::io::Result<usize>> {
         let nd = unsafe { &mut *self.nd };
         if buf.is_empty() { return Poll::Ready(Ok(0)); }
         let scripted = self.scripted();
-        if scripted && nd.bool("write_pending") { return Poll::Pending; }
+        if scripted && nd.bool("write_pending") { { cx.waker().wake_by_ref(); return Poll::Pending; } }
         let n = if scripted && nd.bool("write_one_byte") { 1 } else { buf.len() };
         unsafe { (*self.out).extend_from_slice(&buf[..n]); }
         Poll::Ready(Ok(n))
     }
-    fn poll_flush(mut self: Pin<&mut Self>, _cx: &mut Context<'_>) -> Poll<std::io::Result<()>> {
+    fn poll_flush(mut self: Pin<&mut Self>, cx: &mut Context<'_>) -> Poll<std::io::Result<()>> {
         let nd = unsafe { &mut *self.nd };
-        if self.scripted() && nd.bool("flush_pending") { Poll::Pending } else { Poll::Ready(Ok(())) }
+        if self.scripted() && nd.bool("flush_pending") { cx.waker().wake_by_ref(); Poll::Pending } else { Poll::Ready(Ok(())) }
     }
     fn poll_shutdown(self: Pin<&mut Self>, _cx: &mut Context<'_>) -> Poll<std::io::Result<()>> { Poll::Ready(Ok(())) }
 }
@@ -3411,4 +3425,70 @@ pub fn c12_notification_stream(nd: &mut Nondet) {
         check("c12.a-remote-close-or-an-oversized-frame-ends-the-stream", !(remote_closes || oversized));
     }
 
+}
+
+// ------------------------------------------------------------------------------------------ C16/C04 request futures of the Kademlia executor
+use litep2p::protocol::libp2p::kademlia::executor::{QueryExecutor, QueryResult};
+
+/// C16 (send phase) + C04 (`send_framed` path): the futures the Kademlia executor runs for one request over a real
+/// Substream. A send is reported (or assumed) successful only if the complete framed request reached the carrier; a
+/// carrier failure is reported as a send failure; a reply is handed over unchanged.
+pub fn c16_executor_request(nd: &mut Nondet) {
+    let peer = nd.peer_id_fixed(1);
+    // the remote: stays idle, closes, or replies with one frame
+    let remote = nd.choose("remote", 3);
+    let reply: Vec<u8> = vec![0xB1, 0xB2];
+    let incoming: Vec<u8> = if remote == 2 { let mut v = vec![reply.len() as u8]; v.extend_from_slice(&reply); v } else { Vec::new() };
+    // the carrier: healthy, or failing at the 1st / 2nd / 3rd write call
+    let fail_at = nd.choose("carrier_fails_at_write", 4) as usize;
+    let mut wire: Vec<u8> = Vec::new();
+    let mut io = ScriptedIo::new(nd, incoming).with_sink(&mut wire as *mut Vec<u8>);
+    io.idle_at_end = remote == 0;
+    io.fail_write_at = if fail_at == 0 { None } else { Some(fail_at) };
+    let sub = Substream::new_verif(peer, SubstreamId::from(0usize), Box::new(io), ProtocolCodec::UnsignedVarint(None));
+    let request: Vec<u8> = vec![0x61, 0x62, 0x63];
+    let message = Bytes::from(request.clone());
+    let mut executor = QueryExecutor::new();
+    let operation = nd.choose("operation", 3);
+    match operation {
+        0 => executor.send_message(peer, Some(QueryId(7)), message, sub),
+        1 => executor.send_request_read_response(peer, Some(QueryId(7)), message, sub),
+        _ => executor.send_request_eat_response_failure(peer, Some(QueryId(7)), message, sub),
+    }
+    let waker = noop_waker();
+    let mut cx = Context::from_waker(&waker);
+    let mut outcome = None;
+    let mut polls = 0;
+    while polls < 10 {
+        polls += 1;
+        match Pin::new(&mut executor).poll_next(&mut cx) {
+            Poll::Ready(Some(context)) => { outcome = Some(context); break; }
+            Poll::Ready(None) => { check("c16x.executor-keeps-the-request-until-it-has-an-outcome", false); return; }
+            Poll::Pending => { cover("c16x.pending"); }
+        }
+    }
+    let sent = wire == framed(&request);
+    check("c16x.the-carrier-holds-a-prefix-of-the-framed-request", { let full = framed(&request); wire.len() <= full.len() && wire[..] == full[..wire.len()] });
+    match outcome {
+        None => {
+            // no timer fires within the explored window: only a request waiting for an idle remote may still be pending
+            cover("c16x.waiting");
+            check("c16x.only-a-read-from-an-idle-remote-stays-pending", remote == 0 && operation >= 1 && sent);
+        }
+        Some(context) => {
+            check("c16x.outcome-names-the-peer-and-the-query", context.peer == peer && context.query_id == Some(QueryId(7)));
+            match context.result {
+                QueryResult::SendSuccess { .. } => { cover("c16x.send-success"); check("c16x.success-only-after-the-whole-request-was-written", sent && operation == 0); }
+                QueryResult::AssumeSendSuccess => { cover("c16x.assumed-success"); check("c16x.assumed-success-only-after-the-whole-request-was-written", sent && operation == 2); }
+                QueryResult::ReadSuccess { message, .. } => {
+                    cover("c16x.read-success");
+                    check("c16x.reply-only-after-the-whole-request-was-written", sent && operation >= 1);
+                    check("c16x.reply-is-what-the-remote-sent", remote == 2 && message[..] == reply[..]);
+                }
+                QueryResult::SendFailure { .. } => { cover("c16x.send-failure"); check("c16x.send-failure-only-when-the-carrier-failed", fail_at != 0 && !sent); }
+                QueryResult::ReadFailure { .. } => { cover("c16x.read-failure"); check("c16x.read-failure-only-after-the-request-was-written-and-no-reply-came", sent && operation == 1 && remote != 2); }
+            }
+        }
+    }
+    if fail_at == 0 { check("c16x.healthy-carrier-gets-the-whole-request", sent); }
 }
